@@ -5,7 +5,7 @@ from props._cc import has, base_classes, same, outcome
 
 PROP = 'C02'
 LEVEL = 'exploration'
-RULE = ("stratified cases as C01 plus session ops: re-decoration of a new function object on the same cache object, re-open of a fresh handle "
+RULE = ("stratified cases as C01 (directory archives also named by a RELATIVE path, existing or new, with the working directory changed during the history) plus session ops: re-decoration of a new function object on the same cache object, re-open of a fresh handle "
         "on the same location, and a forked child process that re-creates the decorated function on the archive location and replays calls. "
         "Oracle per call from the observed pre-state: retrievable := key resident or (archiving on and key in archive); the function is evaluated "
         "exactly once iff not retrievable, never when retrievable. non-trivial = a repeat call for a key that was evicted/purged/dumped earlier, or a "
